@@ -112,6 +112,9 @@ def for_loop(e):
     r = strip(sc['args'][0])
     inclusive = False
     step = None
+    if r['k'] == 'Call' and callee_decl(r) == 'std::iter::Iterator::rev' and len(r['args']) == 1 and \
+            (strip(r['args'][0])['k'] == 'Adt' or callee_name(strip(r['args'][0])) == 'std::ops::RangeInclusive::new'):
+        r = strip(r['args'][0])             # `(a..b).rev()`: the same index values, last first - the lines (and the cells of a line) are the same set
     if r['k'] == 'Call' and callee_decl(r) == 'std::iter::Iterator::step_by' and len(r['args']) == 2:
         step = r['args'][1]; r = strip(r['args'][0])                 # `(a..b).step_by(s)`: a, a+s, a+2s, .. below b
     if r['k'] == 'Adt' and canon(r['adt']) == 'std::ops::Range':
